@@ -77,6 +77,13 @@ type CredentialData struct {
 
 // Unmarshal converts the bytes provided into a CredentialData type.
 func (c *CredentialData) Unmarshal(b []byte) (err error) {
+	// The NDR decoder indexes its state by what it has read so far: data that does not have the layout of this
+	// structure must come back as an error, not as a panic.
+	defer func() {
+		if r := recover(); r != nil {
+			err = fmt.Errorf("error unmarshaling CredentialData: %v", r)
+		}
+	}()
 	dec := ndr.NewDecoder(bytes.NewReader(b))
 	err = dec.Decode(c)
 	if err != nil {
